@@ -5,8 +5,8 @@ CFG = dict(
     # property theorems (audited); scene_* quantify over EVERY well-formed scene, gltf_* over every admissible write sequence
     theorems=["scene_inv", "scene_valid_low", "gltf_refs_in_range", "scene_refs_ok", "gltf_node_trs",
               "scene_dinv", "gltf_prims_consistent", "scene_prims_ok", "gltf_carries_scene", "gltf_extensions_declared", "scene_nodes_ok", "gltf_scene_valid",
-              "gltf_dedup_consistent", "addMaterial_dedup", "addMesh_dedup", "gltf_scene_full_partial", "exScene_wf", "gltf_equal_equivalence",
-              "addMaterial_shown", "gltf_dedup_ok", "gltf_scene_full", "exScene_wf2", "gltf_dedup_samplername_counterexample",
+              "gltf_dedup_consistent", "addMaterial_dedup", "addMesh_dedup", "exScene_wf", "richScene_ok", "gltf_equal_equivalence",
+              "addMaterial_shown", "gltf_dedup_ok", "gltf_scene_full", "gltf_dedup_samplername_counterexample",
               "gltf_bytesWritten_eq_len", "gltf_views_tile", "gltf_accessor_fits", "gltf_minmax",
               "gltf_decode_image", "gltf_decode_indices", "gltf_index_width",
               "glb_frame_length", "glb_frame", "glb_frame_bin",
@@ -24,14 +24,19 @@ CFG = dict(
         "float64→float32 narrowing: Lean Float.toFloat32 in the driver vs Go float32(x), compared bit-for-bit through the buffer bytes",
         "colour factors roundFloat(c/65535,3) computed at Float in the model, compared bit-for-bit"],
     residue=[
-        "gltf_scene_full proves, for every scene satisfying SceneWF2 (MeshWF meshes, admissible instances, a written attribute whenever there are indices, pairwise different glTF attribute names per mesh, and ExtCongr = the meaning of eqKey: material-extension values with the same id and key are the same value) that the writer accepts: valid ∧ carriesScene ∧ dedupOK — ALL three oracle predicates. The unconditional def C06_scene_full (same without hypotheses) is not a theorem and is not expected to be: an ill-formed mesh (index out of range, attribute arrays of different lengths) is written as it is. The alignment clause stays false + known.",
-        "scene theorems need well-formedness hypotheses only where the property itself presupposes them: gltf_refs_in_range, gltf_extensions_declared, gltf_dedup_consistent, gltf_node_trs hold for EVERY accepted scene; scene_valid_low / gltf_prims_consistent / gltf_carries_scene / gltf_scene_valid need SceneOK (+ a written attribute when there are indices; + distinct glTF attribute names for carriesScene)",
-        "carries (Model/GltfSpec): the conjunct `p.attrs.length == m.written.length` was replaced by `every key of p.attrs is the glTF name of a written attribute`; together with `every written attribute is present` this is the same on parsed documents (keys of a JSON object are unique)",
+        "gltf_scene_full: for every scene satisfying SceneWF that the writer accepts, valid ∧ carriesScene ∧ dedupOK (ALL three oracle predicates) hold of the written document and buffer. SceneWF = every heap mesh well formed (MeshWF: each written attribute has dim components per vertex that fit the component type, no ±Inf, no NaN in a FLOAT VEC4, ONE common length; every index < that length ≤ 2^32), admissible GPU instances (ten binary32 values, none infinite, no NaN in the rotation), triangle or point topology, and ExtCongr (the meaning of eqKey: material-extension values with the same id and key are the same value). richScene_ok is a kernel-checked instance (shared mesh, two equal-by-value materials, texture with sampler and required transform, instances, light) that satisfies SceneWF AND is accepted.",
+        "EXCLUDED input classes (accepted by the writer, outside SceneWF): attribute arrays of different lengths or an index ≥ vertex count (not well-formed meshes; written as they are); ±Inf attribute data and NaN in a FLOAT VEC4 / an instance rotation (encoding/json refuses the document: marshalOK); line / line-strip / line-loop / quad topologies (written without a mode, i.e. silently as TRIANGLES — observation, outside the property's 'point or triangle' quantifier). No longer hypotheses since fd26630 (consequences of acceptance): pairwise different glTF attribute names (colliding names are rejected), a written attribute whenever there are indices (such meshes are skipped); both classes are in the general generator.",
+        "the unconditional def C06_scene_full (same statement without SceneWF) is not a theorem and not expected to be",
+        "gltf_prims_consistent partly restates MeshWF (index < attrLen, count = attrLen); its content is accessor existence, dimension / component type / count of what was written and decodeAcc … = some m.indices",
         "C06_alignment (full clause) is false of the code: gltf_alignment_counterexample; proved part gltf_alignment_partial (all vectors FLOAT, every index block a multiple of 4 bytes) — at write level",
         "glb_frame / glb_frame_bin read every header and chunk word back from the bytes (readWord); the equivalent statement through readFrame/frameOK (what c06.holds.frame evaluates on the implementation) is not proved for the model",
-        "VecsOK excludes ±Inf (the writer's MaxFloat64 sentinel survives +Inf) and NaN in FLOAT VEC4 (Go's math.Min/Max would make the bound NaN; the model's order-based fold does not reproduce that): encoding/json refuses such documents (model: marshalOK); NaN in VEC2/VEC3 is modelled (skipped) and covered by gltf_minmax",
-        "byte-typed (Joint) vectors: Go computes min/max on the float64 value v while it stores uint8(v); the model identifies both, i.e. assumes integer values in [0,255]",
-        "JSON text layout; skins and animations; base64 (std); Float1 attributes (never written by AddMesh); material Extras; topologies other than triangle/point (written without a mode)"],
+        "model mismatches that cannot produce a wrong file: texFinish compares only {sampler, source} while Go's Texture.equal also compares texture-level Extensions (no non-info texture extension exists, unreachable); PolyformNormal{} / PolyformOcclusion{} with a nil embedded texture PANIC in Go (AddTexture(nil)) — a crash, not an inconsistent file, not representable in the model, not generated (observation); non-finite light intensity/range, material scalars, transform payload make json.Marshal fail: modelled in marshalOK, not generated",
+        "byte-typed (Joint) vectors: Go computes min/max on the float64 value v while it stores uint8(v); the model identifies both, i.e. assumes integer values in [0,255]; sampler Extensions (only name and Extras are modelled, Extras as an equality tag)",
+        "JSON text layout; skins and animations; base64 (std); Float1 attributes (never written by AddMesh); material Extras"],
+    manifest=dict(
+        text="Lean 4 theorems about a hand-written model of formats/gltf (writer state machine with explicit pointer ids) tied to the Go code on every run by exact comparison of the independently parsed document, buffer bytes and GLB file. Proved for every scene satisfying SceneWF that the writer accepts (gltf_scene_full): valid (buffer/view/accessor ranges, min/max of the stored float32 values, every index reference, per-primitive attribute counts, index values < vertex count, extensions declared) ∧ carriesScene (decoding every accessor returns exactly the stored image of each model's attributes and indices; node TRS and instance transforms) ∧ dedupOK (shared meshes/materials/textures stored once and referenced consistently; each model's material shown by the material it references); material/texture equality is an equivalence; GLB framing word by word; index width. Alignment clause false of the code: counterexample theorem + known finding; partial theorem under a guard.",
+        note="SceneWF excludes accepted inputs: ragged attribute lengths / index ≥ vertex count (not well-formed meshes), ±Inf / VEC4-NaN data (json refuses), line/quad topologies (written as TRIANGLES; outside the property's quantifier). Trusted: Lean kernel; propext/Classical.choice/Quot.sound; the model Model/Gltf.lean and the harness's independent reader; Lean Float.toFloat32 vs Go float32(). Not modelled: JSON text, skins/animations, base64.",
+        technique="Lean 4 proof over a hand-written state-machine model (invariants by induction over the model loop) + exact correspondence and theorem-predicate oracles on the implementation's output"),
     assumptions=["pointer identity of meshes/textures = position in the scene's heap (one immutable object per pointer during a write)",
                  "byte-typed (Joint) attribute values are integers in [0,255]"],
 )
